@@ -161,7 +161,7 @@ def positional_uses(ctx):
                 break
         if not hit:
             continue
-        b = ctx.body(d)
+        b = ctx.ibody(d)
         for bi, t in b.iter_calls():
             f = t["f"]
             if "def" not in f:
@@ -324,7 +324,7 @@ def idx_r2(ctx, only=None, floor=6):
         for o, d, bi, sp in cs:
             if o not in ctors:
                 continue
-            b = ctx.body(d)
+            b = ctx.ibody(d)
             for blk in b.blocks:
                 if blk["i"] != bi:
                     continue
@@ -357,7 +357,7 @@ def idx_r2(ctx, only=None, floor=6):
                 nme = mir._strip_generics(t["f"]["def"])
                 if not nme.endswith(SHIFTING):
                     continue
-                b = ctx.body(d)
+                b = ctx.ibody(d)
                 if arg_field(b, t["args"][0]) == (adt, fld):
                     bad.append((mir.short(d), mir.short(nme), t["sp"]))
         ctx.check(anchor, not bad, "no library code inserts into / removes from / reorders an aligned table",
@@ -374,7 +374,7 @@ def idx_r2(ctx, only=None, floor=6):
             if t and t["t"] == "call" and "def" in t["f"] and t["f"]["def"] in ("std::iter::Iterator::collect", "std::iter::FromIterator::from_iter"):
                 if any("MultiExchangeTxMap" in a for a in t["f"]["args"][1:] if t["f"]["def"].endswith("collect")) or \
                         (t["f"]["def"].endswith("from_iter") and "MultiExchangeTxMap" in t["f"]["args"][0]):
-                    b = ctx.body(d)
+                    b = ctx.ibody(d)
                     term = b.call_term(t, blk["i"])
                     m += 1
                     if _check_chain(ctx, b, term, "Exchange", "MultiExchangeTxMap.0@%s" % mir.short(d), t["sp"]):
@@ -387,7 +387,7 @@ def idx_r3(ctx):
     """builder: sort+dedup precede enumerate; key = position"""
     B = "barter_instrument::index::builder::IndexedInstrumentsBuilder"
     d = ctx.find(name="build", self_adt=B, trait="")
-    b = ctx.body(d)
+    b = ctx.ibody(d)
     calls = b.real_calls()
     rt = b.return_term()
     ok = rt[0] == "agg" and rt[1].endswith("IndexedInstruments::IndexedInstruments")
@@ -442,7 +442,7 @@ def idx_r3(ctx):
                                   sites=[t["sp"]], got=render(tm), key="exchange-lookup")
                 # nested asset lookup closure
                 for cd in ctx.closures_of(cb.defn):
-                    ccb = ctx.body(cd)
+                    ccb = ctx.ibody(cd)
                     for bi, t, tm in ccb.real_calls():
                         if mir.short(tm[1]) == "index::find_asset_by_exchange_and_name_internal":
                             args = [render(mir.in_closure(ctx.facts, _closure_agg(cb, cd), a)) if _closure_agg(cb, cd) else render(a) for a in tm[2]]
@@ -502,7 +502,7 @@ def idx_r7(ctx):
     # accessors hand out shared slices
     for fld in II_FIELDS:
         d = ctx.find(name=fld, self_adt=II, trait="")
-        b = ctx.body(d)
+        b = ctx.ibody(d)
         ctx.check("IndexedInstruments::" + fld, b.locals[0]["ty"].startswith("&") and not b.locals[0]["ty"].startswith("&mut"),
                   "accessor returns a shared slice", got=b.locals[0]["ty"], key="shared")
 
